@@ -90,7 +90,7 @@ _search("C06", ["c06"], [("GdslModel.Props.C06", "G." + t) for t in ["Heap.push_
 _search("C07", ["c07"], [("GdslModel.Props.C07", "G." + t) for t in ["Trace.search_sees_all", "Trace.order_sees_all", "Trace.true_endpoints", "Trace.order_true_endpoints", "Filter.excluded", "Filter.order_excluded", "Filter.as_subgraph", "Filter.order_as_subgraph"]],
         "Machine-checked proof (Lean 4) for all six traversal kinds of the model: without target and filter the sequence of edges handed to the closure is a permutation of the edges (with multiplicity) leaving the nodes reachable from the root; every traced edge is an element of its source's iterated list with its stored value; the edge tree (hence every path, cycle, ordering) contains accepted edges only; a filtered run equals the unfiltered run on the accepted subgraph. Tied to the four flavours by exact correspondence of the callback traces (for_each and every reject set on small graphs) and a multiset oracle on the real traces.",
         "Lean 4 proof (trace/loop invariants, filter-as-subgraph simulation) + model/implementation correspondence of callback traces + multiset oracle")
-_search("C08", ["c08"], [("GdslModel.Props.C08", "G." + t) for t in ["Transpose.eq_swap", "Transpose.run_eq_swap", "Transpose.swap_reverses", "Forward.ignores_inbound", "Builder.order_irrelevant"]],
+_search("C08", ["c08"], [("GdslModel.Props.C08", "G." + t) for t in ["Transpose.eq_swap", "Transpose.run_eq_swap", "Transpose.swap_reverses", "Forward.ignores_inbound", "Builder.order_irrelevant", "Builder.transpose_idempotent", "Builder.last_call_wins"]],
         "Machine-checked proof (Lean 4) that in the model a transposed run of any of the 30 configurations is the plain run on the store with the two lists of every node exchanged, that under the mirror invariant this store is the edge-reversed graph, that plain runs depend on outgoing lists only, and that the builder's configuration calls (transpose, min/max, target) commute, so that a transposed builder follows the incoming lists in whatever order it was configured. The substantive tie - that the real code selects exactly these lists for every {bfs,dfs,pfs-min,pfs-max,pre,post} x {search,path,cycle,nodes,edges} and reports Edge(v,u,e) - is the exact correspondence on digraph/sync_digraph plus a metamorphic oracle that reruns every request on a freshly built edge-reversed graph and demands identical output.",
         "Lean 4 proof (transposition = list swap) + model/implementation correspondence over all 30 configurations + reversed-graph metamorphic oracle")
 _search("C09", ["c09"], [("GdslModel.Props.C09", "G.Cycle." + t) for t in ["sound", "complete", "simple", "bfs_minimal"]],
